@@ -6,11 +6,11 @@ CONSTANTS
   Q = 2
   InitHead = 2
   MaxR = 5
-  Froms = {0, 1, 2, 3}
+  Froms = {0, 1, 2, 3, 4, 5, 1000}
   Backend = "bolt"
   Buf = 100
   Remap = FALSE
   Faults = {}
   MaxFaults = 0
-INVARIANTS TypeOK Inv_SentStored Mon_InOrder Mon_FromStart Mon_StoredDispatched
+INVARIANTS TypeOK Inv_SentStored Mon_InOrder Mon_FromStart Mon_BeforeStart Mon_StoredDispatched
 CHECK_DEADLOCK FALSE
